@@ -204,3 +204,83 @@ func fillDec(res *DecResult, js *State, obj *Object) {
 		}
 	}
 }
+
+// MutResult: the fields of a symbolic receiver after a pointer-receiver method ran.
+type MutResult struct {
+	Fields map[string]BV     // stored integer fields (sources: F:<field> of the receiver before the call)
+	Other  map[string]string // stored non-integer / opaque fields
+	NRet   int
+	Notes  []string
+}
+
+// AnalyzeMutator evaluates a pointer-receiver method without parameters on a symbolic receiver
+// and reports every field it stores, as a function of the receiver's fields before the call.
+func (e *Engine) AnalyzeMutator(fn *ssa.Function) (*MutResult, error) {
+	if len(fn.Params) != 1 {
+		return nil, fmt.Errorf("%s: unexpected signature", fn.Name())
+	}
+	pt, ok := fn.Params[0].Type().Underlying().(*types.Pointer)
+	if !ok {
+		return nil, fmt.Errorf("%s: receiver is not a pointer", fn.Name())
+	}
+	st := newState()
+	obj := e.NewObject("", pt.Elem(), true)
+	rets := e.Call(fn, []Value{&PtrV{Obj: obj, T: pt.Elem()}}, nil, st, 0)
+	res := &MutResult{Fields: map[string]BV{}, Other: map[string]string{}}
+	var js *State
+	for _, r := range rets {
+		res.NRet++
+		if js == nil {
+			js = r.St
+		} else {
+			js = joinStates(js, r.St, nil)
+		}
+	}
+	if js == nil {
+		return nil, fmt.Errorf("%s: no return found", fn.Name())
+	}
+	d := &DecResult{Fields: res.Fields, Other: res.Other}
+	fillDec(d, js, obj)
+	res.Notes = e.Notes
+	return res, nil
+}
+
+// FuncAlt: one return of a scalar function with its path condition.
+type FuncAlt struct {
+	Cond    []Bit
+	Results []BV // integer results (nil for others)
+	ErrNil  bool
+	ErrKnown bool
+}
+
+// AnalyzeFunc evaluates a function whose receiver/parameters are integers (named after the
+// parameters: source "F:<name>") and reports each return separately.
+func (e *Engine) AnalyzeFunc(fn *ssa.Function) ([]FuncAlt, error) {
+	st := newState()
+	var args []Value
+	for _, p := range fn.Params {
+		w, _ := typeWidth(p.Type())
+		if w == 0 {
+			args = append(args, e.unknownOf(p.Type(), "parameter"))
+			continue
+		}
+		args = append(args, &IntV{B: srcBV("F:"+p.Name(), w)})
+	}
+	rets := e.Call(fn, args, nil, st, 0)
+	var out []FuncAlt
+	for _, r := range rets {
+		a := FuncAlt{Cond: append([]Bit(nil), r.St.conds...), ErrNil: r.Err.Nil, ErrKnown: r.Err.Known}
+		for _, v := range r.Vals {
+			if iv, ok := v.(*IntV); ok {
+				a.Results = append(a.Results, r.St.normalize(iv.B))
+			} else {
+				a.Results = append(a.Results, nil)
+			}
+		}
+		out = append(out, a)
+	}
+	if len(out) == 0 {
+		return nil, fmt.Errorf("%s: no return found", fn.Name())
+	}
+	return out, nil
+}
